@@ -28,6 +28,8 @@ from ..mon.budget import budget, StepBudgetExceeded
 from . import C01
 
 PROP = "C03"
+LEVEL_TEXT = 'After every operation of explored (all admissible op x target x flags from every small tree, successor states deduplicated, depth 2/3) and random (30 ops on one live object) histories the arborescence walker, the exception allow-list, the leaf-multiset delta and the bipartition-freshness oracle are evaluated - also when the operation raised. Each operation runs under a JUMP step budget, so non-termination is a verdict. Evidence lists distinct states and (state, op) transitions observed.'
+LEVEL_NOTE = 'Trusted: the walker (raw fields only), the per-operation documented-error allow-list built from docstrings/raise statements, the admissibility rules listed in the module docstring.'
 LEVEL = "exploration"
 TECHNIQUE = "runtime monitoring: arborescence walker + leaf-multiset and bipartition-freshness oracles after every operation of explored/random histories"
 RULE = ("bounded exploration of operation histories from every tree with <= 3 (quick) / <= 4 (thorough) leaves x rooting x "
